@@ -139,7 +139,80 @@ class C10(Prop):
         m = 120 if tier == 'quick' else 2500
         for i in range(m):
             js.append({'region': 'core' if i % 3 else 'renege', 'gseed': seed * 100003 + 500000 + i, 'size': 'quick', 'poison': True})
+        # the malformed-sample stream in EXACT mode (the exact node classes replace the traced ones, so these runs are not traced: the oracle's
+        # own draw log and whether the run raised are the whole observation)
+        for i in range(max(30, m // 3)):
+            js.append({'custom': 'exact_poison', 'region': 'core' if i % 3 else 'renege', 'gseed': seed * 100003 + 700000 + i})
         return js
+
+    def custom_work(self, job, drv):
+        import gen, netbuild, obs, sx, framework
+        cfg = gen.gen(job['region'], job['gseed'], 'quick')
+        for key in ('ps', 'ps_thr', 'tracker', 'detector'):
+            cfg.pop(key, None)
+        cfg = self.adjust(cfg, dict(job, poison=True))
+        cfg.pop('combine', None)
+        cfg['exact'] = 26
+        res = {'region': 'malformed_exact', 'gseed': job['gseed'], 'hash': 'x/' + framework.cfg_hash(cfg), 'exc': None, 'status': 'ok', 'nontrivial': False,
+               'stats': {}, 'nframes': 0}
+        obs.install_shim()
+        obs.OBS.reset()
+        obs.OBS.on = True
+        obs.OBS.cev = []
+        raised = None
+        try:
+            obs.ciw.seed(cfg.get('seed', 0))
+            net = netbuild.make_network(cfg)
+        except Exception:
+            res['status'] = 'cfg_rejected'
+            return res
+        obs.OBS.classes = list(net.customer_class_names)
+        count = [0]
+        try:
+            class Cnt(obs.ciw.Simulation):
+                def event_and_return_nextnode(self, nd):
+                    count[0] += 1
+                    if count[0] > 400:
+                        raise obs.StopRun()
+                    return super().event_and_return_nextnode(nd)
+            Q = Cnt(net, exact=26)
+            netbuild.do_run(Q, cfg['run'])
+        except obs.StopRun:
+            pass
+        except Exception as e:
+            raised = obs.repo_site(e)
+        K = cfg['k']
+        ev = []
+        bad = 0
+        for e in obs.OBS.cev:
+            if e[0] != 'Draw':
+                continue
+            kind, node, cls, idx, t, ind, v = e[1:8]
+            if kind == 'arr':
+                val = enc_time(v, obs.SCALE)
+                ev.append([1, node * K + cls, val])
+            else:
+                continue        # batch sizes and service times take the same path in both modes; the exact node classes override inter_arrival only
+            if not (isinstance(val, int) and val >= 0):
+                bad += 1
+        res['nframes'] = count[0]
+        res['exc'] = raised
+        res['stats'] = {'exact_mode_malformed_runs': 1, 'exact_mode_invalid_arrival_draws': bad, 'arr_draws': sum(1 for x in ev if x[0] == 1)}
+        # only the draws up to and including the first invalid one matter: after it the run must have raised
+        cut = next((i for i, x in enumerate(ev) if not (isinstance(x[2], int) and x[2] >= 0)), None)
+        tree = [[x for x in (ev if cut is None else ev[:cut + 1]) if x[0] in (1, 3)], 1 if raised is not None else 0]
+        # the acceptor's stream discipline (event kinds 2, 4, 5) is not observable here: hand it the invalid draw alone
+        tree = [[tree[0][-1]] if cut is not None else [], tree[1] if cut is not None else 0]
+        v = drv.ask(self.num, sx.dump(tree))
+        res['verdict'] = v
+        res['nontrivial'] = cut is not None and v[0] == 'A'
+        if v[0] != 'A':
+            res['cfg'] = dict(cfg, replay_job={'custom': 'exact_poison', 'region': job['region'], 'gseed': job['gseed']})
+            res['finding'] = None
+            res['detail'] = {'what': 'exact mode: an invalid inter-arrival sample was drawn and the run did not raise', 'draw': tree[0], 'events_executed': count[0]}
+        if job.get('want_sample'):
+            res['sample'] = {'kind': 'exact-mode malformed sample', 'invalid_draw': tree[0], 'raised': raised}
+        return res
 
     def adjust(self, cfg, job):
         # a share of the runs hands its times to the engine through ciw's arithmetic on distributions (CombinedDistribution):
